@@ -86,11 +86,22 @@ type callT struct {
 	mdl func() (string, bool)                       // model result, if modelled
 }
 
+// keptErrs: the error values handed out during the current sequence, with the text they had when they were handed
+// out (a caller may keep an error and read it later: its text stays what it was).
+type keptErr struct {
+	err  error
+	text string
+}
+
+var keptErrs []keptErr
+
 func errText(err error) string {
 	if err == nil {
 		return "<nil>"
 	}
-	return err.Error()
+	t := err.Error()
+	keptErrs = append(keptErrs, keptErr{err, strings.Clone(t)})
+	return t
 }
 
 func lenientPhone(errBuf *strings.Builder, validName, objName, fieldName string, tv reflect.Value) {}
@@ -383,6 +394,7 @@ func run(c *runner.Ctx) {
 				}
 				viol = viol[:0]
 				obsKey = ""
+				keptErrs = keptErrs[:0]
 				return []func(){func() {
 					var hs []handed
 					for pos, ci := range seq {
@@ -398,6 +410,11 @@ func run(c *runner.Ctx) {
 						hs = append(hs, handed{res, strings.Clone(res), cl.name})
 						for _, t := range toks {
 							hs = append(hs, handed{t, strings.Clone(t), cl.name + " token"})
+						}
+						for _, k := range keptErrs {
+							if now := k.err.Error(); now != k.text {
+								viol = append(viol, fmt.Sprintf("kept-error-changed|after %s at position %d: %q became %q", cl.name, pos, k.text, now))
+							}
 						}
 						for _, h := range hs {
 							if h.live != h.copy {
